@@ -9,4 +9,5 @@ func main() {
 	o := hx.ParseOpts()
 	env := hx.NewEnv()
 	hx.RunHistories(env, oracle.New(env), o)
+	oracle.AppendStats(o.Out)
 }
